@@ -48,6 +48,9 @@ type command struct {
 //
 // We need to keep searching for successful queries of f while *ctr > 0.
 // When we find a successful result, we decrement *ctr.
+//
+// A notification is only sent once the result has been written to its slot,
+// so that a caller counting notifications never observes an empty slot.
 func workerSearch(results []interface{}, ctrChanged chan<- struct{}, f func(int) interface{}, ctr *int64) {
 	for atomic.LoadInt64(ctr) > 0 {
 		res := f(0)
@@ -55,9 +58,11 @@ func workerSearch(results []interface{}, ctrChanged chan<- struct{}, f func(int)
 			continue
 		}
 		i := atomic.AddInt64(ctr, -1)
-		if i >= 0 {
-			results[i] = res
+		if i < 0 {
+			// enough results were already found by other workers
+			return
 		}
+		results[i] = res
 		ctrChanged <- struct{}{}
 	}
 }
@@ -135,7 +140,9 @@ func (p *Pool) Search(count int, f func() interface{}) []interface{} {
 	results := make([]interface{}, count)
 
 	ctr := int64(count)
-	ctrChanged := make(chan struct{})
+	// The channel is large enough to hold every notification, so a worker never
+	// blocks on it, even when we are no longer receiving.
+	ctrChanged := make(chan struct{}, count)
 	cmd := command{
 		search:     true,
 		ctr:        &ctr,
@@ -143,16 +150,20 @@ func (p *Pool) Search(count int, f func() interface{}) []interface{} {
 		f:          func(i int) interface{} { return f() },
 		results:    results,
 	}
+	// Each notification corresponds to exactly one filled slot of results.
+	found := 0
 	cmdI := 0
 	for cmdI < p.workerCount {
 		select {
 		case p.commands <- cmd:
 			cmdI++
 		case <-ctrChanged:
+			found++
 		}
 	}
-	for atomic.LoadInt64(&ctr) > 0 {
+	for found < count {
 		<-ctrChanged
+		found++
 	}
 
 	return results
@@ -169,7 +180,9 @@ func (p *Pool) Parallelize(count int, f func(int) interface{}) []interface{} {
 	results := make([]interface{}, count)
 
 	ctr := int64(count)
-	ctrChanged := make(chan struct{})
+	// The channel is large enough to hold every notification, so a worker never
+	// blocks on it, even when we are no longer receiving.
+	ctrChanged := make(chan struct{}, count)
 	cmdI := 0
 	for cmdI < count {
 		cmd := command{
